@@ -85,6 +85,7 @@ static void history_noise(const char* dir, int64_t ci) { const char* nz = getenv
     scribble_stack(n * 37 + 1); v_count("stack_scribbles"); }
 
 static void run_case(table_t* t, const char* dir, int64_t ci, const char* tag);
+static uint8_t* slurp_file(const char* path, size_t* n) { FILE* f = fopen(path, "rb"); if (!f) return NULL; fseek(f, 0, SEEK_END); long L = ftell(f); fseek(f, 0, SEEK_SET); uint8_t* b = (uint8_t*)malloc((size_t)L + 1); if (L && fread(b, 1, (size_t)L, f) != (size_t)L) { fclose(f); free(b); return NULL; } fclose(f); *n = (size_t)L; return b; }
 /* a table whose single page body is exactly the given bytes: one REQUIRED FIXED_LEN_BYTE_ARRAY(1) column, one row group, one batch,
  * one page. Lets the generator place literal runs, match offsets and match lengths of the LZ77-family codecs on their format
  * boundaries (length-extension bytes at 15+255k, Snappy's 60/64-byte and 2048/65536 limits, LZ4's end-of-block rules). */
@@ -121,7 +122,14 @@ static void lookalike_cases(const char* dir, uint64_t seed, int count) { char ta
 
 static void run_case(table_t* t, const char* dir, int64_t ci, const char* tag) {
     char path[512]; snprintf(path, sizeof path, "%s/c.parquet", dir); unlink(path); history_noise(dir, ci);
-    twrite_result_t wr; int created = tbl_write_path(&R, t, path, &wr);
+    vrng_t r_before = R; twrite_result_t wr; int created = tbl_write_path(&R, t, path, &wr);
+    /* every 6th table is also written, with the same write history, through a stream the caller owns that cannot seek or tell (a pipe):
+     * the bytes that arrive must be the very file the path-based writer produced (offsets in the footer must not come from the stream position) */
+    if (created && wr.all_ok && ci % 6 == 2) { char sp[560], cmd[700]; snprintf(sp, sizeof sp, "%s/c.stream.parquet", dir); unlink(sp); snprintf(cmd, sizeof cmd, "cat > '%s'", sp); FILE* pf = popen(cmd, "w");
+        if (pf) { vrng_t r2 = r_before; twrite_result_t w2; int c2 = tbl_write_stream(&r2, t, pf, &w2); int prc = pclose(pf); v_count("tables_also_written_through_a_pipe");
+            if (c2 && w2.all_ok && prc == 0) { size_t an = 0, bn = 0; uint8_t* a = slurp_file(path, &an); uint8_t* b = slurp_file(sp, &bn); if (!a || !b || an != bn || memcmp(a, b, an)) { size_t q = 0; while (a && b && q < an && q < bn && a[q] == b[q]) q++; v_viol("stream-writer:bytes-differ-from-path-writer", "%s: path writer %zu bytes, pipe %zu bytes, first difference at %zu", tag, an, bn, q); } free(a); free(b); }
+            else if (!(c2 && w2.all_ok)) v_viol("stream-writer:refused-table-the-path-writer-accepted", "%s: %s status %d", tag, w2.first_bad_call ? w2.first_bad_call : "?", w2.first_bad_status); }
+        unlink(sp); }
     uint64_t h = (uint64_t)ci * 0x9E3779B97F4A7C15ULL; for (int g = 0; g < t->nrg; g++) for (int c = 0; c < t->ncols; c++) { h = v_hash(t->rg[g][c].def, (size_t)t->rg[g][c].nlevels * 2, h); h = v_hash(t->rg[g][c].batch_rows, (size_t)t->rg[g][c].nbatches * 8, h); }
     int64_t total = 0; for (int g = 0; g < t->nrg; g++) total += t->rg_rows[g];
     v_case(total >= 1 ? h : 0);
